@@ -194,6 +194,13 @@ def generate(repo):
                     if nm not in tr.env:
                         raise Untranslatable(f'{nm} clamped before it is assigned')
                     lets.append(f'let {nm}_ := if {tr.cond(st.test)} then {tr.expr(st.body[0].value)} else {nm}_')
+                elif isinstance(st, ast.Assign) and len(st.targets) == 1 and isinstance(st.targets[0], ast.Name):
+                    # a local alias (`ncols = x.shape[1]`): inlined where it is used; the clamp itself is emitted AS WRITTEN
+                    # (`min(max(v, 0), n)` or the two ifs) and proved equal to the model clamp for all integers in gen_window
+                    try:
+                        tr.env[st.targets[0].id] = tr.expr(st.value)
+                    except Untranslatable:
+                        pass
             for nm, res in ((f'windowLo{ax}', f'offset_{ax.lower()}_'), (f'windowHi{ax}', f'upper_{ax.lower()}_')):
                 out.append(lean_def(nm, '(c ic s n : Int)', 'Int', lets, res))
         # every other statement of the body must be the int -> tuple promotion of samples_per_seg
@@ -309,9 +316,23 @@ def generate(repo):
         ok = True
         for cls in ('CompositeHexagonalAperture', 'CompositeKeystoneAperture'):
             fn = get_def(sg, f'{cls}.compose_opd')
-            loop = [s for s in fn.body if isinstance(s, ast.For)][0]
+            loops = [s for s in fn.body if isinstance(s, ast.For)]
+            returns_out = has(ast.unparse(fn), 'return out')
+            if not loops:
+                # the accumulation loop extracted into a module-level helper `return helper(out, windows, masks, bases, coefs)`:
+                # bind the helper's parameters to the call's arguments and read the loop there
+                ret = [s for s in fn.body if isinstance(s, ast.Return) and isinstance(s.value, ast.Call) and isinstance(s.value.func, ast.Name)][-1]
+                helper = get_def(sg, ret.value.func.id)
+                params = [a.arg for a in helper.args.args]
+                mapping = dict(zip(params, ret.value.args))
+                mapping.update({k.arg: k.value for k in ret.value.keywords})
+                hb = [subst(s, mapping) for s in _body(helper)]
+                loops = [s for s in hb if isinstance(s, ast.For)]
+                returns_out = isinstance(hb[-1], ast.Return) and ast.unparse(hb[-1].value) == 'out' and ast.unparse(mapping['out']) == 'out' \
+                    and all(isinstance(s, (ast.For, ast.Return)) for s in hb)
+            loop = loops[0]
             ok = ok and [ast.unparse(s) for s in loop.body] == ['tile = sum_of_2d_modes(base, c)', 'tile *= mask', 'out[win] += tile']
-            ok = ok and has(ast.unparse(fn), 'if out is None:\n    out = np.zeros_like(self.x)', 'return out')
+            ok = ok and has(ast.unparse(fn), 'if out is None:\n    out = np.zeros_like(self.x)') and returns_out
             it = ast.unparse(loop.iter)
             ok = ok and (has(it, 'zip(self.windows, self.local_masks, self.opd_bases, coefs)')
                          or has(it, 'zip(self.segment_windows, self.segment_masks, self.opd_bases[1:], segment_coefs)'))
